@@ -1255,6 +1255,14 @@ class ContainerEngine:
                 if op["op"] == "del":
                     ms.drop(T.Shadow.join(op["base"], op["path"]))
                 ops.append(op)
+                if op["op"] == "move" and op["base"] == "/" and not op.get("bad_kw") and g.random() < 0.35:
+                    # something with metadata shows up again at the path a node was just moved away
+                    # from (the moved node itself copied back, or another node moved there)
+                    srcp, dstp = "/" + op["src"].strip("/"), "/" + op["dst"].strip("/")
+                    if any(q == srcp or q.startswith(srcp.rstrip("/") + "/") for q, _ in ms.pairs()) and dstp in sh.nodes and srcp not in sh.nodes:
+                        back = {"op": g.choice(["copy", "copy", "move"]), "base": "/", "src": dstp, "dst": srcp}
+                        sh.apply(back)
+                        ops.append(back)
             elif k == "meta_set":
                 counter[0] += 1
                 roll = g.random()
